@@ -97,6 +97,11 @@ impl CredentialStore for Store {
         if let Some(e) = self.script["update"].get("err") {
             return Err(status(e));
         }
+        if self.script["stateful"].as_bool().unwrap_or(false) {
+            if let Some(slot) = self.held.iter_mut().find(|p| p.credential_id == cred.credential_id) {
+                *slot = cred;
+            }
+        }
         Ok(())
     }
 
@@ -178,6 +183,106 @@ fn main() {
     let log: Log = Arc::new(Mutex::new(Vec::new()));
     let rp = sc["request"]["rp_id"].as_str().unwrap_or("example.com").to_string();
 
+    if sc["op"] == "concurrent_assert" {
+        // two authenticators sharing one store through Arc<tokio::sync::Mutex<_>> (or RwLock), each asserting
+        // with the same credential; the user validation of the first suspends once, the second ceremony
+        // runs to completion in between (single-threaded, explicit polling: the schedule is the scenario)
+        let start = sc["counter"].as_u64().unwrap_or(5) as u32;
+        let mut pk = Passkey::mock(rp.clone()).counter(start).build();
+        pk.credential_id = vec![1u8; 16].into();
+        let mk_req = || get_assertion::Request {
+            rp_id: rp.clone(),
+            client_data_hash: vec![7u8; 32].into(),
+            allow_list: None,
+            extensions: None,
+            options: make_credential::Options { rk: false, up: true, uv: false },
+            pin_auth: None,
+            pin_protocol: None,
+        };
+        let script = json!({"find": {"ok": 1}, "stateful": true});
+        let store = Store { script, log: log.clone(), held: vec![pk] };
+        let user = |pending: u64| User { script: json!({"verification": true, "outcome": {"ok": [true, true]}, "pending": pending}), log: log.clone() };
+        let mut cx = Context::from_waker(Waker::noop());
+        let counters: Vec<Option<u32>>;
+        let stored: Option<u32>;
+        macro_rules! run_two {
+            ($shared:expr, $read:expr) => {{
+                let shared = $shared;
+                let mut a = Authenticator::new(Aaguid::new_empty(), shared.clone(), user(1));
+                let mut b = Authenticator::new(Aaguid::new_empty(), shared.clone(), user(0));
+                let mut fa = Box::pin(Authenticator::get_assertion(&mut a, mk_req()));
+                let mut fb = Box::pin(Authenticator::get_assertion(&mut b, mk_req()));
+                let mut ra = None;
+                let mut rb = None;
+                // A runs until its consent step suspends, then B completes, then A resumes
+                if let Poll::Ready(r) = fa.as_mut().poll(&mut cx) { ra = Some(r); }
+                for _ in 0..100 { if let Poll::Ready(r) = fb.as_mut().poll(&mut cx) { rb = Some(r); break; } }
+                for _ in 0..100 { if ra.is_some() { break; } if let Poll::Ready(r) = fa.as_mut().poll(&mut cx) { ra = Some(r); } }
+                let c: Vec<Option<u32>> = [ra, rb].into_iter().map(|r| r.and_then(|x| x.ok()).and_then(|x| x.auth_data.counter)).collect();
+                drop(fa); drop(fb);
+                (c, $read(&shared))
+            }};
+        }
+        if sc["lock"] == "rwlock" {
+            let (c, s) = run_two!(Arc::new(tokio::sync::RwLock::new(store)), |sh: &Arc<tokio::sync::RwLock<Store>>| sh.try_read().ok().and_then(|g| g.held[0].counter));
+            counters = c; stored = s;
+        } else {
+            let (c, s) = run_two!(Arc::new(tokio::sync::Mutex::new(store)), |sh: &Arc<tokio::sync::Mutex<Store>>| sh.try_lock().ok().and_then(|g| g.held[0].counter));
+            counters = c; stored = s;
+        }
+        println!("E2REPLAY {}", json!({"result": {"counters": counters, "stored": stored, "start": start}, "log": *log.lock().unwrap()}));
+        return;
+    }
+    if sc["op"] == "wrapper_ops" {
+        // every CredentialStore method once through Arc<Mutex<MemoryStore>> / Arc<RwLock<MemoryStore>>, compared with
+        // what the wrapped store then holds; a call still pending after 1000 polls counts as a deadlock
+        use passkey_authenticator::{CredentialStore, DiscoverabilitySupport, MemoryStore};
+        let mut p0 = Passkey::mock(rp.clone()).counter(5).build();
+        p0.credential_id = vec![1u8; 16].into();
+        let mut p1 = Passkey::mock(rp.clone()).counter(0).build();
+        p1.credential_id = vec![2u8; 16].into();
+        let mut cx = Context::from_waker(Waker::noop());
+        macro_rules! drive {
+            ($fut:expr, $dead:expr, $name:expr) => {{
+                let mut f = Box::pin($fut);
+                let mut out = None;
+                for _ in 0..1000 { if let Poll::Ready(r) = f.as_mut().poll(&mut cx) { out = Some(r); break; } }
+                if out.is_none() { $dead.push($name.to_string()); }
+                out
+            }};
+        }
+        macro_rules! run_ops {
+            ($shared:expr, $peek:expr) => {{
+                let mut w = $shared;
+                let mut dead: Vec<String> = Vec::new();
+                let user = make_credential::PublicKeyCredentialUserEntity { id: vec![9u8; 8].into(), display_name: Some("d".into()), name: Some("n".into()), icon_url: None };
+                let rpe = make_credential::PublicKeyCredentialRpEntity { id: rp.clone(), name: None };
+                let saved_ok = drive!(w.save_credential(p1.clone(), user, rpe, make_credential::Options { rk: sc["rk"].as_bool().unwrap_or(true), up: sc["up"].as_bool().unwrap_or(true), uv: sc["uv"].as_bool().unwrap_or(false) }), dead, "save_credential").map(|r| r.is_ok());
+                let saved = $peek(&w, &p1.credential_id).is_some();
+                let mut p0b = p0.clone();
+                p0b.counter = Some(9);
+                let upd_ok = drive!(w.update_credential(p0b), dead, "update_credential").map(|r| r.is_ok());
+                let updated = $peek(&w, &p0.credential_id).and_then(|p| p.counter) == Some(9);
+                let ids = [descriptor(&p0.credential_id)];
+                let found = drive!(w.find_credentials(Some(&ids), &rp), dead, "find_credentials").map(|r| r.map(|v| v.len()).map_err(|e| format!("{:?}", e)));
+                let info = drive!(w.get_info(), dead, "get_info").map(|i| match i.discoverability {
+                    DiscoverabilitySupport::Full => "full",
+                    DiscoverabilitySupport::ForcedDiscoverable => "forced",
+                    DiscoverabilitySupport::OnlyNonDiscoverable => "non-discoverable",
+                });
+                json!({"save_ok": saved_ok, "saved": saved, "update_ok": upd_ok, "updated": updated, "found": found.map(|r| r.ok()), "info": info, "deadlock": dead})
+            }};
+        }
+        let mut inner = MemoryStore::new();
+        inner.insert(p0.credential_id.clone().into(), p0.clone());
+        let res = if sc["lock"] == "rwlock" {
+            run_ops!(Arc::new(tokio::sync::RwLock::new(inner)), |w: &Arc<tokio::sync::RwLock<MemoryStore>>, id: &passkey_types::Bytes| w.try_read().ok().and_then(|g| g.get(id.as_slice()).cloned()))
+        } else {
+            run_ops!(Arc::new(tokio::sync::Mutex::new(inner)), |w: &Arc<tokio::sync::Mutex<MemoryStore>>, id: &passkey_types::Bytes| w.try_lock().ok().and_then(|g| g.get(id.as_slice()).cloned()))
+        };
+        println!("E2REPLAY {}", json!({"result": res, "log": []}));
+        return;
+    }
     if sc["op"] == "cbor_duplicates" {
         // serialise fully populated messages, duplicate one top-level member at a time, decode again
         use ciborium::value::Value as V;
